@@ -314,7 +314,7 @@ for _p, _rs in _ROUND2.items():
         PROPS[_p]["decided"] += "; also: " + _extra
 
 # rules added after the third round of independent mutations (DESIGN.md 12.8)
-_ROUND3 = {'C16': ['R-REBORROW'], 'C02': ['R-REBORROW', 'R-DUP-FORGET', 'R-OWNING-ITER', 'R-CLONE-GUARD-RANGE', 'R-DROP-ORDER', 'R-PAR-CONSUME', 'R-LINEAR-INNER', 'R-TAG-CONSTS', 'R-BITMASK-DEFS', 'R-ARG-ORDER', 'R-ZST-DROP', 'R-FORGET-WINDOW', 'R-CLONE-SHAPE', 'R-CTRL-WRITE'], 'C14': ['R-REBORROW', 'R-KEEP-KEY', 'R-ARG-ORDER', 'R-REHASH-LOOP'], 'C15': ['R-REBORROW'], 'C03': ['R-PAR-CONSUME', 'R-SIBLING-FORWARD', 'R-ZST-DROP', 'R-GROUP-DEFS', 'R-AUTO', 'R-FORGET-WINDOW', 'R-PAR-LINEAR', 'R-CLONE-SHAPE'], 'C10': ['R-PAR-CONSUME', 'R-ZST-PTR', 'R-DUP-FORGET', 'R-ZST-DROP', 'R-PAR-LINEAR'], 'C06': ['R-ZST-PTR', 'R-BULKDROP-GUARD', 'R-SIBLING-FORWARD', 'R-BITMASK-DEFS', 'R-ARG-ORDER'], 'C09': ['R-ZST-PTR', 'R-ACCT', 'R-TAG-CONSTS', 'R-BITMASK-DEFS', 'R-FORWARD', 'R-GROUP-CONSTS', 'R-REHASH-LOOP'], 'C01': ['R-HINT-LOWER', 'R-SIBLING-FORWARD', 'R-TAG-CONSTS', 'R-BITMASK-DEFS', 'R-ARG-ORDER', 'R-GROUP-DEFS', 'R-LOAD-FACTOR'], 'C07': ['R-LINK', 'R-SIBLING-FORWARD', 'R-ARG-ORDER'], 'C12': ['R-TRY-WRAPPERS', 'R-SIBLING-FORWARD', 'R-FORWARD'], 'C08': ['R-CAP-WRAPPERS', 'R-HINT-LOWER', 'R-SIBLING-FORWARD', 'R-LOAD-FACTOR'], 'C05': ['R-BUCKET-FRESH', 'R-RESERVE-FIRST', 'R-TAG-CONSTS', 'R-BITMASK-DEFS', 'R-GROUP-DEFS', 'R-ZST-DROP', 'R-LOAD-FACTOR'], 'C11': ['R-SIBLING-FORWARD', 'R-FORGET-WINDOW', 'R-ZST-DROP', 'R-DROP-ORDER'], 'C13': ['R-TAG-CONSTS', 'R-GROUP-DEFS', 'R-LOAD-FACTOR'], 'C17': ['R-TAG-CONSTS', 'R-INFALLIBLE', 'R-LAYOUT-SOURCE', 'R-FALLIBLE-THREAD', 'R-LOAD-FACTOR'], 'C19': ['R-ARG-ORDER', 'R-EQ-LEN'], 'C04': ['R-ZST-DROP', 'R-FORGET-WINDOW'], 'C20': ['R-SINGLETON-GUARD', 'R-BULKDROP-GUARD']}
+_ROUND3 = {'C16': ['R-REBORROW'], 'C02': ['R-REBORROW', 'R-DUP-FORGET', 'R-OWNING-ITER', 'R-CLONE-GUARD-RANGE', 'R-DROP-ORDER', 'R-PAR-CONSUME', 'R-LINEAR-INNER', 'R-TAG-CONSTS', 'R-BITMASK-DEFS', 'R-ARG-ORDER', 'R-ZST-DROP', 'R-FORGET-WINDOW', 'R-CLONE-SHAPE', 'R-CTRL-WRITE'], 'C14': ['R-REBORROW', 'R-KEEP-KEY', 'R-ARG-ORDER', 'R-REHASH-LOOP'], 'C15': ['R-REBORROW'], 'C03': ['R-PAR-CONSUME', 'R-SIBLING-FORWARD', 'R-ZST-DROP', 'R-GROUP-DEFS', 'R-AUTO', 'R-FORGET-WINDOW', 'R-PAR-LINEAR', 'R-CLONE-SHAPE'], 'C10': ['R-PAR-CONSUME', 'R-ZST-PTR', 'R-DUP-FORGET', 'R-ZST-DROP', 'R-PAR-LINEAR'], 'C06': ['R-ZST-PTR', 'R-BULKDROP-GUARD', 'R-SIBLING-FORWARD', 'R-BITMASK-DEFS', 'R-ARG-ORDER'], 'C09': ['R-ZST-PTR', 'R-ACCT', 'R-TAG-CONSTS', 'R-BITMASK-DEFS', 'R-FORWARD', 'R-GROUP-CONSTS', 'R-REHASH-LOOP'], 'C01': ['R-HINT-LOWER', 'R-SIBLING-FORWARD', 'R-TAG-CONSTS', 'R-BITMASK-DEFS', 'R-ARG-ORDER', 'R-GROUP-DEFS', 'R-LOAD-FACTOR'], 'C07': ['R-LINK', 'R-SIBLING-FORWARD', 'R-ARG-ORDER'], 'C12': ['R-TRY-WRAPPERS', 'R-SIBLING-FORWARD', 'R-FORWARD'], 'C08': ['R-CAP-WRAPPERS', 'R-HINT-LOWER', 'R-SIBLING-FORWARD', 'R-LOAD-FACTOR'], 'C05': ['R-BUCKET-FRESH', 'R-RESERVE-FIRST', 'R-TAG-CONSTS', 'R-BITMASK-DEFS', 'R-GROUP-DEFS', 'R-ZST-DROP', 'R-LOAD-FACTOR'], 'C11': ['R-SIBLING-FORWARD', 'R-FORGET-WINDOW', 'R-ZST-DROP', 'R-DROP-ORDER'], 'C13': ['R-TAG-CONSTS', 'R-GROUP-DEFS', 'R-LOAD-FACTOR'], 'C17': ['R-TAG-CONSTS', 'R-INFALLIBLE', 'R-LAYOUT-SOURCE', 'R-FALLIBLE-THREAD', 'R-LOAD-FACTOR'], 'C19': ['R-ARG-ORDER', 'R-EQ-LEN', 'R-ZST-DROP'], 'C04': ['R-ZST-DROP', 'R-FORGET-WINDOW'], 'C20': ['R-SINGLETON-GUARD', 'R-BULKDROP-GUARD', 'R-ZST-DROP']}
 _ROUND3_CLAUSE = {
     "R-REBORROW": "a by-reference method of a mutable-access handle (entry, IterMut, Drain, ..) never returns the handle's own collection lifetime (R-REBORROW)",
     "R-PAR-CONSUME": "the parallel drain leaf forgets its producer only when its cursor is exhausted, every taken element is consumed (R-PAR-CONSUME)",
@@ -368,7 +368,7 @@ for _p, _rs in _ROUND3.items():
 CORE_TABLE = ["R-PROBE-STOP", "R-PROBE-STEP", "R-SAME-GROUP", "R-CTRL-WRITE", "R-ACCT", "R-SLOT-PROVENANCE", "R-SLOT-FRESH", "R-BUCKET-FRESH",
               "R-RESERVE-GUARD", "R-REHASH-DECISION", "R-REHASH-LOOP", "R-SWEEP-RANGE", "R-RESIZE-TARGET", "R-ZST-PTR", "R-GROUP-DEFS",
               "R-TAG-CONSTS", "R-BITMASK-DEFS", "R-CURSOR-STATE", "R-ITEMS-GUARD", "R-ERASE-BEFORE", "R-HASH-TAINT", "R-INDEX-BOUNDED", "R-ARG-ORDER", "R-DROPGLUE", "R-ERASE-WINDOW", "R-PROBE-INDEX", "R-CTRL-GEOMETRY", "R-GROUP-CONSTS", "R-SHRINK-DECISION", "R-REHASH-LOOP"]
-for _p in ("C01", "C02", "C05", "C06", "C07", "C09", "C10", "C11", "C13", "C14", "C15"):
+for _p in ("C01", "C02", "C03", "C04", "C05", "C06", "C07", "C08", "C09", "C10", "C11", "C12", "C13", "C14", "C15", "C19", "C20"):
     _added = []
     for _r in CORE_TABLE:
         if _r not in PROPS[_p]["rules"]:
